@@ -680,13 +680,17 @@ impl<F: Read + Write + Seek> Package<F> {
         // A foreign or damaged file can contain leftover catalog rows about a
         // table of this name; inserting ours next to them would fail half
         // way, so refuse up front.
-        for catalog_table in [COLUMNS_TABLE_NAME, VALIDATION_TABLE_NAME] {
+        for (catalog_table, name_column) in [
+            (TABLES_TABLE_NAME, "Name"),
+            (COLUMNS_TABLE_NAME, "Table"),
+            (VALIDATION_TABLE_NAME, "Table"),
+        ] {
             if table_name != catalog_table
                 && self.tables.contains_key(catalog_table)
             {
                 let rows = self.select_rows(
                     Select::table(catalog_table).with(
-                        Expr::col("Table")
+                        Expr::col(name_column)
                             .eq(Expr::string(table_name.as_str())),
                     ),
                 )?;
